@@ -158,7 +158,7 @@ def _events():
         ["set", "PATH", ["/p1"]], ["set", "PATH", []],
         ["fresh-append", "/p2"], ["fresh-insert0", ""], ["fresh-remove-first"],
         ["hold"], ["held-append", "/p3"], ["held-clear"],
-        ["swap", "FOO", "s"], ["swap", "FOO", DEL], ["swap", "PATH", ["/sw"]], ["overlay", "FOO", "o"], ["overlay", "BAR", DEL], ["exit"],
+        ["swap", "FOO", "s"], ["swap", "FOO", DEL], ["swap", "PATH", ["/sw"]], ["overlay", "FOO", "o"], ["overlay", "FOO", "o2"], ["overlay", "BAR", DEL], ["exit"],
         ["launch", None], ["launch", {"FOO": "x"}], ["launch", {"FOO": DEL}], ["launch", {"NEW": "n"}],
         ["mirror", True], ["mirror", False],
     ]  # fmt: skip
